@@ -268,14 +268,17 @@ __CPROVER_requires(self->Status >= Computed ==> (self->Eigenvalues.size >= 1 && 
 __CPROVER_requires((self->Status >= Computed && 0 <= dense_g_k && dense_g_k < self->Eigenvalues.size) ==> self->Eigenvalues.data[dense_g_k] == self->Eigenvalues.data[dense_g_k])
 __CPROVER_requires((self->Status >= Computed && 0 <= dense_g_minpos && dense_g_minpos < self->Eigenvalues.size) ==>
                    D_LE(self->Eigenvalues.data[0], self->Eigenvalues.data[dense_g_minpos]))
+/* ... and at the pair (0, dense_g_k), so that the contract does not depend on HOW the minimum is found (minCoeff or "the first one") */
+__CPROVER_requires((self->Status >= Computed && 0 <= dense_g_k && dense_g_k < self->Eigenvalues.size) ==>
+                   D_LE(self->Eigenvalues.data[0], self->Eigenvalues.data[dense_g_k]))
 __CPROVER_assigns(VERIF_thrown, dense_g_minpos_used)
 __CPROVER_ensures(VERIF_thrown == (self->Status < Computed))
 __CPROVER_ensures((!VERIF_thrown && 0 <= dense_g_k && dense_g_k < self->Eigenvalues.size) ==> D_LE(__CPROVER_return_value, self->Eigenvalues.data[dense_g_k]))
-__CPROVER_ensures(!VERIF_thrown ==> (0 <= dense_g_minpos && dense_g_minpos < self->Eigenvalues.size && D_SAME(__CPROVER_return_value, self->Eigenvalues.data[dense_g_minpos])))
-/* (the ghost position of the minCoeff contract instantiated at 0) */
+/* "one of them": the instance dense_g_k == 0 of the arbitrary ghost position gives  result == Eigenvalues[0]  (a witness position
+ * supplied by the minCoeff stub was demanded here before: that rejected the equivalent implementation `return Eigenvalues(0)`) */
 __CPROVER_ensures((!VERIF_thrown && dense_g_k == 0) ==> D_EQ(__CPROVER_return_value, self->Eigenvalues.data[0]))
 //@end
-//@harness h_HP_getMinimumEigenvalue enforce=HamiltonianPart_getMinimumEigenvalue props=C03 min_obl=222 reach=2 defs=-DVERIF_FP_IEEE timeout=60
+//@harness h_HP_getMinimumEigenvalue enforce=HamiltonianPart_getMinimumEigenvalue props=C03 min_obl=209 reach=2 defs=-DVERIF_FP_IEEE timeout=60
 void h_HP_getMinimumEigenvalue(void)
 {
   struct HamiltonianPart *p;
